@@ -21,6 +21,7 @@ type EscForm struct {
 	Itr    int    // model iteration count
 	Region string // region keyword for raw-text forms
 	MaxIn  int    // > 0: only inputs up to this length (forms whose output grows geometrically)
+	MinIn  int    // > 0: only inputs of at least this length
 }
 
 // longRuns derives, for every letter that has a doubled form ("hh" beside "h"), the runs of 10 and
